@@ -861,7 +861,7 @@ pub fn run(args: &Args, rec: &mut Recorder) {
         );
     }
     // (c) random histories
-    let n_hist: u64 = if args.thorough { 100_000 } else { 2_000 };
+    let n_hist: u64 = if args.thorough { 100_000 } else { 8_000 };
     run_cases(args, rec, n_hist, crate::util::reset_budget, |rng, case, rec| {
         let max_len = *rng.pick(&[8usize, 40, 500]);
         if case % 2 == 0 {
